@@ -118,7 +118,7 @@ def add_env_levels(rng, sc):
     if rng.random() < 0.15:
         sc['machine_env'] = {'L': 'machine', 'P': '~/m'}
     if rng.random() < 0.2:
-        sc['runs_env'] = rng.choice([{'L': 'runs'}, {}, {'L': 'runs', 'H': '~'}])
+        sc['runs_env'] = rng.choice([{'L': 'runs'}, {}, {'L': 'runs', 'H': '~'}, {'L': 'runs', 'Q': "it's", 'T': "~/it's", 'W': 'C:\\d\\'}])
     if rng.random() < 0.2:
         sc['exp_env'] = {'L': 'exp', 'H': '~/e'}
     if rng.random() < 0.2:
@@ -709,7 +709,7 @@ def pattern_scenarios():
             if k in (2, 4, 7):
                 sc['machine_env'] = {'L': 'machine'}
             if k in (4, 5):
-                sc['runs_env'] = {'L': 'runs', 'H': '~'}
+                sc['runs_env'] = {'L': 'runs', 'H': '~', 'Q': "it's", 'T': "~/it's"}
             if k in (5, 6):
                 sc['exp_env'] = {'L': 'exp'}
             if k in (6, 7):
